@@ -18,6 +18,11 @@ var registry = map[string]propFn{}
 
 func register(id string, fn propFn) { registry[id] = fn }
 
+var extras = map[string][]propFn{}
+
+// registerExtra adds a further rule group to a property.
+func registerExtra(id string, fn propFn) { extras[id] = append(extras[id], fn) }
+
 func main() {
 	prop := flag.String("property", "", "property id (Cxx)")
 	tier := flag.String("tier", "quick", "quick|thorough")
@@ -89,6 +94,9 @@ func run(fn propFn, prop, tier, repo, verif string, seed int, only string, verbo
 			}
 		}()
 		fn(c)
+		for _, x := range extras[prop] {
+			x(c)
+		}
 	}()
 	return c.finish(verif, seed, start, loadNote)
 }
